@@ -26,6 +26,9 @@ type c07Op struct {
 	Op   string `json:"op"` // sendiq deliver read cancel release foreign
 	Req  int    `json:"req"`
 	Park bool   `json:"park,omitempty"` // sendiq: park at sendiq.sent; deliver: park at route.iqresult.found
+	// Early (sendiq): the response is routed while the request is being written - the stub transport delivers it from
+	// inside Write, before Write returns (independent of the yield points)
+	Early bool `json:"early,omitempty"`
 	Kind string `json:"kind,omitempty"` // deliver: result | error
 	Gate int    `json:"gate,omitempty"` // release: index into the list of parked goroutines (modulo)
 }
@@ -50,7 +53,12 @@ func genC07(t *rapid.T) c07Case {
 	kind := func() string { return rapid.SampledFrom([]string{"result", "error"}).Draw(t, "kind") }
 	for i := 0; i < nreq; i++ {
 		// one of the race templates, or free-form
-		switch rapid.IntRange(0, 5).Draw(t, "template") {
+		switch rapid.IntRange(0, 6).Draw(t, "template") {
+		case 6: // the response overtakes the return of the write
+			c.Ops = append(c.Ops, c07Op{Op: "sendiq", Req: i, Early: true, Kind: kind()}, c07Op{Op: "read", Req: i})
+			if rapid.Bool().Draw(t, "dupAfterEarly") {
+				c.Ops = append(c.Ops, c07Op{Op: "deliver", Req: i, Kind: kind()}, c07Op{Op: "read", Req: i})
+			}
 		case 0: // response processed between write and registration
 			c.Ops = append(c.Ops, c07Op{Op: "sendiq", Req: i, Park: true}, c07Op{Op: "deliver", Req: i, Kind: kind()}, c07Op{Op: "release", Gate: 0}, c07Op{Op: "read", Req: i})
 		case 1: // two responses both past the lookup
@@ -257,6 +265,23 @@ func runC07(c c07Case) vh.Result {
 				continue
 			}
 			r.started = true
+			if op.Early {
+				sawPark = true
+				fired := false
+				kind := op.Kind
+				if kind == "" {
+					kind = "result"
+				}
+				reqIdx, rid := op.Req, r.id
+				st.onWrite = func(p []byte) {
+					if fired || !strings.Contains(string(p), `id="`+rid+`"`) {
+						return
+					}
+					fired = true
+					r.written = true
+					deliver(reqIdx, rid, kind, false) // returns once the response was routed (or is blocked on the caller's channel)
+				}
+			}
 			var g *c07Gate
 			if op.Park {
 				g = newGate("sendiq.sent", r.id)
@@ -288,6 +313,9 @@ func runC07(c c07Case) vh.Result {
 					res.Fail("t/sendiq-blocks", "SendIQ for request %d did not return", op.Req)
 				}
 				r.written = true
+			}
+			if op.Early {
+				st.onWrite = nil
 			}
 		case "deliver":
 			r := reqs[op.Req]
@@ -471,7 +499,7 @@ func runC07(c c07Case) vh.Result {
 		seenDeliver := false
 		canceledBefore := false
 		for _, op := range c.Ops {
-			if op.Op == "deliver" && op.Req == i {
+			if (op.Op == "deliver" && op.Req == i) || (op.Op == "sendiq" && op.Req == i && op.Early) {
 				seenDeliver = true
 			}
 			if op.Op == "cancel" && op.Req == i && !seenDeliver {
@@ -493,7 +521,7 @@ func runC07(c c07Case) vh.Result {
 				key := "response-not-delivered-to-caller"
 				parkedSend := false
 				for _, op := range c.Ops {
-					if op.Op == "sendiq" && op.Req == i && op.Park {
+					if op.Op == "sendiq" && op.Req == i && (op.Park || op.Early) {
 						parkedSend = true
 					}
 				}
@@ -540,7 +568,7 @@ func runC07(c c07Case) vh.Result {
 
 var c07 = vh.Define(&vh.Def[c07Case]{
 	Property: "C07", Name: "iqresult",
-	Rule: "histories over 1-4 SendIQ requests (distinct ids, occasionally clashing) on a Client or Component with a stub Transport: sendiq(i) optionally parked at the yield point between write and registration, deliver(i, result|error) on its own goroutine through Router.route optionally parked at the yield point after the pending entry was found, deliver of a response nobody asked for, read(i), cancel(i), release(parked goroutine); built from race templates (response between write and registration; two responses both past the lookup; delivery to a receiver that never reads, with or without cancellation; duplicate after a normal exchange) and free-form sequences; at the end all gates open and all contexts end; oracle: no route call panics, every route call returns once all contexts are done, a channel yields at most one response and only one with its own id, no response is delivered to two places, for a request with a distinct id that was written, never cancelled and read after the response arrived the channel yields exactly that response, is closed afterwards and the pending entry is gone, responses for unknown ids reach the ordinary route exactly once; non-trivial = a goroutine was parked at a yield point, a duplicate response, or a cancellation",
+	Rule: "histories over 1-4 SendIQ requests (distinct ids, occasionally clashing) on a Client or Component with a stub Transport: sendiq(i) optionally parked at the yield point between write and registration or with its response routed from inside the transport's Write (before the write returns), deliver(i, result|error) on its own goroutine through Router.route optionally parked at the yield point after the pending entry was found, deliver of a response nobody asked for, read(i), cancel(i), release(parked goroutine); built from race templates (response between write and registration; two responses both past the lookup; delivery to a receiver that never reads, with or without cancellation; duplicate after a normal exchange) and free-form sequences; at the end all gates open and all contexts end; oracle: no route call panics, every route call returns once all contexts are done, a channel yields at most one response and only one with its own id, no response is delivered to two places, for a request with a distinct id that was written, never cancelled and read after the response arrived the channel yields exactly that response, is closed afterwards and the pending entry is gone, responses for unknown ids reach the ordinary route exactly once; non-trivial = a goroutine was parked at a yield point, a duplicate response, or a cancellation",
 	Quick: 2000, Thorough: 100000,
 	Gen: genC07, Run: runC07,
 })
